@@ -208,6 +208,10 @@ class Swap(base.Mutator):
       child1 = parent_node.children[child_indexes[1]]
       parent_node.children.rebind({child_indexes[0]: child1})
       parent_node.children.rebind({child_indexes[1]: child0})
+      # Re-bind the swapped children to the decision points of their new
+      # positions.
+      for i in child_indexes:
+        parent_node.children[i].use_spec(parent_node.spec.subchoice(i))
     return dna
 
   def _get_candidate_nodes(self, dna: pg.DNA) -> List[pg.DNA]:
